@@ -248,6 +248,13 @@ for kind, depth, limit, entry, opts in cases:
             r = sqlparse.format(text, **opts); res = 'ok'
             if not isinstance(r, str): res = 'bad-result'
             elif not opts.get('output_format') and sig(r, opts) != sig(text, opts): res = 'format-changed-tokens'
+            else:
+                # a call that returns must return what it returns with ample stack: a filter that swallows the RecursionError of a deeper level
+                # (a context manager whose __exit__ returns a truthy value, a bare except) hands back a half-formatted text instead of SQLParseError
+                sys.setrecursionlimit(max(20000, 8 * limit))
+                try: ref = sqlparse.format(text, **opts)
+                finally: sys.setrecursionlimit(limit)
+                if r != ref: res = 'format-differs-from-ample-stack'
     except SQLParseError:
         res = 'SQLParseError'
     except RecursionError:
